@@ -6,7 +6,8 @@
    as concrete witnesses. *)
 From Coq Require Import ZArith List Bool.
 From NV Require Import Base.Result Base.Bytes Model.Pdu Model.DepDecode Model.T3Emu Model.Pax Model.Dispatch Model.SnepHdr
-  Proofs.PduTotal Proofs.RobustDep Proofs.RobustPax Proofs.RobustT3 Proofs.RobustDispatch Proofs.RobustSnep.
+  Proofs.PduTotal Proofs.RobustDep Proofs.RobustPax Proofs.RobustT3 Proofs.RobustDispatch Proofs.RobustSnep
+  Base.PyPrims Gen.RobustK Gen.SnepK Gen.DepK Bridge.Robust.
 Import ListNotations.
 Open Scope Z_scope.
 
@@ -103,6 +104,295 @@ Print Assumptions C07_handover_serve_total.
 Theorem C07_handover_client_total : forall nd octets a, exists nx r, hc_step nd false octets a = Ok (nx, r).
 Proof. exact handover_client_total. Qed.
 Print Assumptions C07_handover_client_total.
+
+
+(* --- translation tie: the kernels regenerated from the source on this run (Gen/RobustK.v by translate/kspec_c07.py; the SNEP
+       header arithmetic of Gen/SnepK.v (C06) and the frame prefix of Gen/DepK.v (C04) are reused, not regenerated) are what the
+       models compute with: every statement is a defining equation of a model function with the generated kernels plugged in --- *)
+Theorem C07_bridge_atr_req d :
+  gen_atr_req_nfields = 4%nat /\
+  dec_atr_req d =
+  (if negb (list_eqb (slice d 0 2) gen_code_ATR_REQ) then Ok None else
+   if gen_atr_req_short d then Err ProtocolError else
+   match gen_atr_req_fields d with
+   | [did; bs; br; pp] => Ok (Some (AtrReq (gen_atr_req_nfcid3 d) did bs br pp (if gen_atr_req_has_gb pp then gen_atr_req_gb d else [])))
+   | _ => Crash ValueErr
+   end).
+Proof. intros; apply bridge_atr_req; assumption. Qed.
+Print Assumptions C07_bridge_atr_req.
+
+Theorem C07_bridge_atr_res d :
+  gen_atr_res_nfields = 5%nat /\
+  dec_atr_res d =
+  (if negb (list_eqb (slice d 0 2) gen_code_ATR_RES) then Ok None else
+   if gen_atr_res_short d then Err ProtocolError else
+   match gen_atr_res_fields d with
+   | [did; bs; br; to; pp] => Ok (Some (AtrRes (gen_atr_res_nfcid3 d) did bs br to pp (if gen_atr_res_has_gb pp then gen_atr_res_gb d else [])))
+   | _ => Crash ValueErr
+   end).
+Proof. intros; apply bridge_atr_res; assumption. Qed.
+Print Assumptions C07_bridge_atr_res.
+
+Theorem C07_bridge_psl d :
+  dec_psl_req d = (if negb (list_eqb (slice d 0 2) gen_code_PSL_REQ) then Ok None else
+                   if Nat.eqb (length (gen_psl_args d)) gen_arity_PSL_REQ
+                   then match gen_psl_args d with [a; b; c] => Ok (Some (PslReq a b c)) | _ => Crash TypeErr end
+                   else Err ProtocolError) /\
+  dec_psl_res d = (if negb (list_eqb (slice d 0 2) gen_code_PSL_RES) then Ok None else
+                   if Nat.eqb (length (gen_psl_args d)) gen_arity_PSL_RES
+                   then match gen_psl_args d with [a] => Ok (Some (PslRes a)) | _ => Crash TypeErr end
+                   else Err ProtocolError).
+Proof. intros; apply bridge_psl; assumption. Qed.
+Print Assumptions C07_bridge_psl.
+
+Theorem C07_bridge_dsl rls req d :
+  dec_dsl rls req d =
+  (if negb (list_eqb (slice d 0 2) (dsl_code rls req)) then Ok None else
+   if gen_dsl_long d then Err ProtocolError else
+   do did <- (if gen_dsl_has_did d then (do x <- idx d gen_dsl_did_index; Ok (Some x)) else Ok None);
+   Ok (Some (if rls then RlsPdu req did else DslPdu req did))).
+Proof. intros; apply bridge_dsl; assumption. Qed.
+Print Assumptions C07_bridge_dsl.
+
+Theorem C07_bridge_dep_code (req :
+ bool) (d : list Z) :
+  (if req then starts2 d 212 6 else starts2 d 213 7) = list_eqb (slice d 0 2) (if req then gen_code_DEP_REQ else gen_code_DEP_RES).
+Proof. intros; apply bridge_dep_code; assumption. Qed.
+Print Assumptions C07_bridge_dep_code.
+
+Theorem C07_bridge_i_dispatch c1 kind code t :
+ In (c1, kind, code) gen_i_dispatch ->
+  code = [213; c1] /\ decode_body false Ini (213 :: c1 :: t) = dec_by_kind Ini kind (213 :: c1 :: t).
+Proof. intros; apply bridge_i_dispatch; assumption. Qed.
+Print Assumptions C07_bridge_i_dispatch.
+
+Theorem C07_bridge_t_dispatch c1 kind code t :
+ In (c1, kind, code) gen_t_dispatch ->
+  code = [212; c1] /\ decode_body false Tgt (212 :: c1 :: t) = dec_by_kind Tgt kind (212 :: c1 :: t).
+Proof. intros; apply bridge_t_dispatch; assumption. Qed.
+Print Assumptions C07_bridge_t_dispatch.
+
+Theorem C07_bridge_code_bad c0 c1 t :
+  (gen_i_code_bad c0 c1 = true -> decode_body false Ini (c0 :: c1 :: t) = Err ProtocolError) /\
+  (gen_t_code_bad c0 c1 = true -> decode_body false Tgt (c0 :: c1 :: t) = Err ProtocolError) /\
+  (gen_i_code_bad c0 c1 = false -> c0 = 213 /\ In c1 (map (fun e => fst (fst e)) gen_i_dispatch)) /\
+  (gen_t_code_bad c0 c1 = false -> c0 = 212 /\ In c1 (map (fun e => fst (fst e)) gen_t_dispatch)).
+Proof. intros; apply bridge_code_bad; assumption. Qed.
+Print Assumptions C07_bridge_code_bad.
+
+Theorem C07_bridge_strip_frame_dep r b frame :
+  decode_frame r b frame = (do f <- gen_i_strip_frame b frame; decode_body false r f) /\
+  gen_t_strip_frame b frame = gen_i_strip_frame b frame.
+Proof. intros; apply bridge_strip_frame_dep; assumption. Qed.
+Print Assumptions C07_bridge_strip_frame_dep.
+
+Theorem C07_bridge_activate sec g :
+  gen_lsc_text_size = len [0; 1; 2; 3] /\ gen_dpc_text_size = len [0; 1] /\
+  activate_gb sec (Some g) =
+  (if negb (gen_gb_accept g) then Ok (false, None) else
+   match decode (gen_pax_bytes g) 0 (len (gen_pax_bytes g)) with
+   | Ok p => use_pax sec p
+   | Err DecodeError => Ok (gen_activate_decode_error_result, None)
+   | Err e => Err e
+   | Crash c => Crash c
+   | Hang => Hang
+   end).
+Proof. intros; apply bridge_activate; assumption. Qed.
+Print Assumptions C07_bridge_activate.
+
+Theorem C07_bridge_pax_cfg sec d s v m w l o :
+  use_pax sec (Pax d s v m w l o) =
+  (do _ <- lsc_text o; do _ <- dpc_text o;
+   Ok (true, Some (mkcfg (gen_cfg_rcvd_ver v) (gen_cfg_send_miu m) (gen_cfg_recv_lto l) (gen_cfg_send_wks w)
+                         (gen_cfg_send_lsc o) (gen_cfg_llcp_dpc sec o)))).
+Proof. intros; apply bridge_pax_cfg; assumption. Qed.
+Print Assumptions C07_bridge_pax_cfg.
+
+Theorem C07_bridge_t3_process (idm pmm sys svcs : list Z) (rdf : Z -> Z -> bool -> bool -> option (list Z)) (wrf : Z -> Z -> list Z -> bool -> bool -> bool) cmd :
+  gen_t3_index_error_is_no_response = true /\
+  process_command idm pmm sys svcs rdf wrf cmd =
+  (if gen_t3_len_bad cmd then Ok None else
+   match process_inner idm pmm sys svcs rdf wrf cmd with Crash IndexErr => Ok None | r => r end).
+Proof. intros; apply bridge_t3_process; assumption. Qed.
+Print Assumptions C07_bridge_t3_process.
+
+Theorem C07_bridge_t3_inner (idm pmm sys svcs : list Z) (rdf : Z -> Z -> bool -> bool -> option (list Z)) (wrf : Z -> Z -> list Z -> bool -> bool -> bool) cmd :
+  process_inner idm pmm sys svcs rdf wrf cmd =
+  (if gen_t3_is_polling sys cmd then
+     do rc <- idx (gen_t3_polling_arg cmd) gen_t3_polling_rc_index;
+     do out <- ba (gen_t3_polling_rsp (gen_t3_polling idm pmm sys rc)); Ok (Some out)
+   else if gen_t3_idm_match idm cmd then (do c1 <- idx cmd 1; t3_by_table idm sys svcs rdf wrf gen_t3_dispatch cmd c1)
+   else Ok None).
+Proof. intros; apply bridge_t3_inner; assumption. Qed.
+Print Assumptions C07_bridge_t3_inner.
+
+Theorem C07_bridge_t3_rd_wr_same (idm pmm sys svcs : list Z) (rdf : Z -> Z -> bool -> bool -> option (list Z)) (wrf : Z -> Z -> list Z -> bool -> bool -> bool) :
+  gen_t3_wr_service_code = gen_t3_rd_service_code /\ gen_t3_wr_err_service = gen_t3_rd_err_service /\
+  gen_t3_wr_service_step = gen_t3_rd_service_step /\ gen_t3_wr_list_index = gen_t3_rd_list_index /\
+  gen_t3_wr_err_index = gen_t3_rd_err_index /\ gen_t3_wr_two_byte = gen_t3_rd_two_byte /\ gen_t3_wr_bn2 = gen_t3_rd_bn2 /\
+  gen_t3_wr_bn2_step = gen_t3_rd_bn2_step /\ gen_t3_wr_bn3 = gen_t3_rd_bn3 /\ gen_t3_wr_bn3_step = gen_t3_rd_bn3_step /\
+  gen_t3_wr_begin = gen_t3_rd_begin /\ gen_t3_wr_end = gen_t3_rd_end.
+Proof. intros; apply bridge_t3_rd_wr_same; assumption. Qed.
+Print Assumptions C07_bridge_t3_rd_wr_same.
+
+Theorem C07_bridge_t3_parse_services (idm pmm sys svcs : list Z) (rdf : Z -> Z -> bool -> bool -> option (list Z)) (wrf : Z -> Z -> list Z -> bool -> bool -> bool) n err cd acc :
+  parse_services svcs (S n) err cd acc =
+  (do b1 <- idx cd 1; do b0 <- idx cd 0;
+   let code := gen_t3_rd_service_code b0 b1 in
+   if negb (memz code svcs) then Ok (Rsp err)
+   else parse_services svcs n err (drop gen_t3_rd_service_step cd) (acc ++ [(code, 0)])).
+Proof. intros; apply bridge_t3_parse_services; assumption. Qed.
+Print Assumptions C07_bridge_t3_parse_services.
+
+Theorem C07_bridge_t3_parse_blocks (idm pmm sys svcs : list Z) (rdf : Z -> Z -> bool -> bool -> option (list Z)) (wrf : Z -> Z -> list Z -> bool -> bool -> bool) m i cd sl acc :
+  parse_blocks (S m) i cd sl acc =
+  match nth_error cd 0 with
+  | None => Ok (Rsp (gen_t3_rd_err_index i))
+  | Some b0 =>
+      let k := Z.to_nat (gen_t3_rd_list_index b0) in
+      match nth_error sl k with
+      | None => Ok (Rsp (gen_t3_rd_err_index i))
+      | Some (code, cnt) =>
+          let sl' := set_nth k (code, cnt + 1) sl in
+          if gen_t3_rd_two_byte b0 then
+            do b1 <- idx cd 1;
+            parse_blocks m (i + 1) (drop gen_t3_rd_bn2_step cd) sl' (acc ++ [(code, gen_t3_rd_bn2 b1)])
+          else
+            do b2 <- idx cd 2; do b1 <- idx cd 1;
+            parse_blocks m (i + 1) (drop gen_t3_rd_bn3_step cd) sl' (acc ++ [(code, gen_t3_rd_bn3 b1 b2)])
+      end
+  end.
+Proof. intros; apply bridge_t3_parse_blocks; assumption. Qed.
+Print Assumptions C07_bridge_t3_parse_blocks.
+
+Theorem C07_bridge_t3_read (idm pmm sys svcs : list Z) (rdf : Z -> Z -> bool -> bool -> option (list Z)) (wrf : Z -> Z -> list Z -> bool -> bool -> bool) cd :
+  read_without_encryption svcs rdf cd =
+  (do (n, cd1) <- pop0 cd;
+   do e1 <- parse_services svcs (Z.to_nat n) gen_t3_rd_err_service cd1 [];
+   match e1 with
+   | Rsp r => Ok r
+   | Go (sl, cd2) =>
+       do (m, cd3) <- pop0 cd2;
+       if gen_t3_rd_too_many m then Ok gen_t3_rd_err_too_many else
+       do e2 <- parse_blocks (Z.to_nat m) 0 cd3 sl [];
+       match e2 with
+       | Rsp r => Ok r
+       | Go (sl', bl, _) =>
+           do bl' <- annotate sl' bl;
+           do e3 <- read_loop svcs rdf bl' 0 sl' [];
+           match e3 with Rsp r => Ok r | Go data => ba (gen_t3_rd_ok data) end
+       end
+   end).
+Proof. intros; apply bridge_t3_read; assumption. Qed.
+Print Assumptions C07_bridge_t3_read.
+
+Theorem C07_bridge_t3_read_loop (idm pmm sys svcs : list Z) (rdf : Z -> Z -> bool -> bool -> option (list Z)) (wrf : Z -> Z -> list Z -> bool -> bool -> bool) sc bn bc r i d acc :
+  read_loop svcs rdf ((sc, bn, bc) :: r) i d acc =
+  (do c <- dget d sc;
+   do _ <- services_get svcs sc;
+   match rdf sc bn (gen_t3_rd_begin bc c) (gen_t3_rd_end c) with
+   | None => Ok (Rsp (gen_t3_rd_err_block i))
+   | Some one => read_loop svcs rdf r (i + 1) (dset d sc (c - 1)) (acc ++ one)
+   end).
+Proof. intros; apply bridge_t3_read_loop; assumption. Qed.
+Print Assumptions C07_bridge_t3_read_loop.
+
+Theorem C07_bridge_t3_write (idm pmm sys svcs : list Z) (rdf : Z -> Z -> bool -> bool -> option (list Z)) (wrf : Z -> Z -> list Z -> bool -> bool -> bool) cd :
+  write_without_encryption svcs wrf cd =
+  (do (n, cd1) <- pop0 cd;
+   do e1 <- parse_services svcs (Z.to_nat n) gen_t3_wr_err_service cd1 [];
+   match e1 with
+   | Rsp r => Ok r
+   | Go (sl, cd2) =>
+       do (m, cd3) <- pop0 cd2;
+       do e2 <- parse_blocks (Z.to_nat m) 0 cd3 sl [];
+       match e2 with
+       | Rsp r => Ok r
+       | Go (sl', bl, cd4) =>
+           do bl' <- annotate sl' bl;
+           if gen_t3_wr_misaligned cd4 then Ok gen_t3_wr_err_align else write_loop svcs wrf bl' 0 sl' cd4
+       end
+   end).
+Proof. intros; apply bridge_t3_write; assumption. Qed.
+Print Assumptions C07_bridge_t3_write.
+
+Theorem C07_bridge_t3_write_loop (idm pmm sys svcs : list Z) (rdf : Z -> Z -> bool -> bool -> option (list Z)) (wrf : Z -> Z -> list Z -> bool -> bool -> bool) sc bn bc r i d bd :
+  write_loop svcs wrf [] i d bd = Ok gen_t3_wr_ok /\
+  write_loop svcs wrf ((sc, bn, bc) :: r) i d bd =
+  (do c <- dget d sc;
+   do _ <- services_get svcs sc;
+   if negb (wrf sc bn (gen_t3_wr_block bd i) (gen_t3_wr_begin bc c) (gen_t3_wr_end c)) then Ok (gen_t3_wr_err_block i)
+   else write_loop svcs wrf r (i + 1) (dset d sc (c - 1)) bd).
+Proof. intros; apply bridge_t3_write_loop; assumption. Qed.
+Print Assumptions C07_bridge_t3_write_loop.
+
+Theorem C07_bridge_snep_process (nd : Z -> list Z -> ndef_out) d :
+ 6 <= len d ->
+  process_snep_request nd false d =
+  (let dec (o : ndef_out) (ok_code : Z) :=
+     match o with
+     | NdOk _ => Ok (gen_c06_response ok_code [])
+     | NdDecodeError => rsp_of gen_snep_decode_error_code
+     | NdValueError => rsp_of gen_snep_value_error_code
+     end in
+   if gen_c06_is_get d then dec (nd 0 (gen_c06_get_octets d)) gen_snep_default_get
+   else if gen_c06_is_put d then dec (nd 0 (gen_c06_put_octets d)) gen_snep_default_put
+   else Ok (gen_c06_response gen_snep_bad_request_code [])).
+Proof. intros; apply bridge_snep_process; assumption. Qed.
+Print Assumptions C07_bridge_snep_process.
+
+Theorem C07_bridge_snep_first (nd : Z -> list Z -> ndef_out) max_len d :
+  gen_snep_empty_fragment_ends = true /\
+  snep_step nd false max_len Idle (Frag d) =
+  (if len d =? 0 then Ok ([], Return)
+   else if gen_c06_srv_short d then Ok ([], Return)
+   else let v := gen_c06_srv_version d in
+        let length := gen_c06_srv_length d in
+        if gen_c06_srv_badver v then Ok ([gen_c06_rsp_unsupver], Continue Idle)
+        else if gen_c06_srv_excess length max_len then Ok ([gen_c06_rsp_reject], Continue Idle)
+        else if gen_c06_srv_more d length then Ok ([gen_c06_srv_rsp_continue], Continue (Collect d length))
+        else (do r <- process_snep_request nd false d; Ok ([r], Continue Idle))).
+Proof. intros; apply bridge_snep_first; assumption. Qed.
+Print Assumptions C07_bridge_snep_first.
+
+Theorem C07_bridge_snep_more (nd : Z -> list Z -> ndef_out) max_len data need f :
+  snep_step nd false max_len (Collect data need) (Frag f) =
+  (if gen_c06_srv_more (data ++ f) need then Ok ([], Continue (Collect (data ++ f) need))
+   else (do r <- process_snep_request nd false (data ++ f); Ok ([r], Continue Idle))).
+Proof. intros; apply bridge_snep_more; assumption. Qed.
+Print Assumptions C07_bridge_snep_more.
+
+Theorem C07_bridge_ho_step (nd : Z -> list Z -> ndef_out) (hs : list Z) (send_miu : Z) (reset : bool) request f :
+  ho_step nd false hs send_miu reset request (Frag f) =
+  (let r := request ++ f in
+   if gen_c06_ho_empty r then Ok ([], Continue r) else
+   match nd 1 r with
+   | NdDecodeError => if gen_ho_serve_continues_on_decode_error then Ok ([], Continue r) else Crash ValueErr
+   | NdValueError => if gen_ho_serve_continues_on_value_error then Ok ([], Continue r) else Crash ValueErr
+   | NdOk _ => do rsp <- ho_process nd false hs r; Ok (chunks send_miu (length rsp) rsp, Continue (if reset then [] else r))
+   end).
+Proof. intros; apply bridge_ho_step; assumption. Qed.
+Print Assumptions C07_bridge_ho_step.
+
+Theorem C07_bridge_ho_process (nd : Z -> list Z -> ndef_out) (hs : list Z) (send_miu : Z) (reset : bool) request :
+  ho_process nd false hs request =
+  match nd 2 request with
+  | NdOk hr => Ok (if hr then hs else [])
+  | NdDecodeError => if gen_ho_process_empty_on_decode_error then Ok [] else Crash ValueErr
+  | NdValueError => if gen_ho_process_empty_on_value_error then Ok [] else Crash ValueErr
+  end.
+Proof. intros; apply bridge_ho_process; assumption. Qed.
+Print Assumptions C07_bridge_ho_process.
+
+Theorem C07_bridge_ho_client (nd : Z -> list Z -> ndef_out) (hs : list Z) (send_miu : Z) (reset : bool) octets f :
+  hc_step nd false octets (Frag f) =
+  match nd 1 (octets ++ f) with
+  | NdOk _ => Ok (Return, Some (octets ++ f))
+  | NdDecodeError => if gen_ho_client_continues_on_decode_error then Ok (Continue (octets ++ f), None) else Crash ValueErr
+  | NdValueError => if gen_ho_client_continues_on_value_error then Ok (Continue (octets ++ f), None) else Crash ValueErr
+  end.
+Proof. intros; apply bridge_ho_client; assumption. Qed.
+Print Assumptions C07_bridge_ho_client.
 
 (* --- the code as it was (each of these inputs was found by the check on the unrepaired tree) --- *)
 Theorem C07_orig_dep_empty_frame : decode_frame_orig Ini false [] = Crash IndexErr /\ decode_frame_orig Tgt true [240] = Crash IndexErr.
